@@ -135,6 +135,7 @@ class World:
         self.xfer_src: str | None = None
         self.xfer_dst: str | None = None
         self.state = None  # a real dvc_data State shared by the local stores, or None (StateNoop)
+        self.store_spelling = "plain"
         self.alg = "md5"   # the stores' hash algorithm ("md5-dos2unix": stores written by DVC 2.x)
         self.fault_kind = 0
         os.makedirs(root, exist_ok=True)
@@ -315,7 +316,9 @@ class World:
             config.setdefault("state", self.state)
         if self.alg != "md5":
             config.setdefault("hash_name", self.alg)
-        return cls(fsobj, self.store_path(s), **config)
+        # (the caller's spelling of the store path: plain, or with a trailing separator - a configured "cache/dir/")
+        path = self.store_path(s) + (os.sep if self.store_spelling == "slash" else "")
+        return cls(fsobj, path, **config)
 
     def use_real_state(self, warm: bool):
         """Share one real hash-state database between the local stores; `warm` records an entry for
